@@ -6,4 +6,4 @@ set -e
 cd "$ROOT/harness"
 cargo build --release
 mkdir -p "$ROOT/target"
-cargo build --release -p rspirv-dis --manifest-path /repo/Cargo.toml --target-dir "$ROOT/target/dis"
+CARGO_PROFILE_RELEASE_OVERFLOW_CHECKS=true CARGO_PROFILE_RELEASE_DEBUG_ASSERTIONS=true cargo build --release -p rspirv-dis --manifest-path /repo/Cargo.toml --target-dir "$ROOT/target/dis"
